@@ -142,10 +142,10 @@ P = {
     "C32.c": "a provider built from an RREL string and one built from a parsed grammar expression are configured alike: every read of the expression's flags (use_proxy, importURI) in create_rrel_scope_provider comes after the string was parsed",
     "C11.a": "find_object_with_path acceptance table: Postponed returned as is; accepted iff no name part remains and (no class or textx_isinstance); alternatives iterated in stored order, first hit; ReferenceProxy iff use_proxy",
     "C11.b": "every node class built by RRELVisitor defines the interface the evaluator calls",
-    "C11.d": "navigation results: an object selected by name is returned with the path extended by it; a name part is consumed iff it selected the object",
     "C11.e": "RRELDots yields the ancestor only if all parent steps could be taken, otherwise no match",
     "C11.c": "objects found by a navigation step are recognised by None-test, not by truth value",
     "C11.g": "by evaluation of RRELExpression.__init__ on the sample trees: the letter m anywhere in the flags turns importURI on, p turns use_proxy on (+m: +p: +mp: +pm:), no flags leave both off; every navigation node of the tree points to its expression",
+    "C11.h": "by evaluation of find_object_with_path and the get_next_matches / apply methods of the RREL node classes (generators evaluated on demand) on visitor-built trees of 31 sample expressions over a sample model (nested packages, same-named classes, an inheritance chain, a reference cycle, an imported and a builtin model), compared for every (expression, start object, name, target class) of the grid with the analysis' own reference evaluator of the documented semantics: first match in written order, name consumption, fixed names, parent(T), dots, ^, zero-or-more with its recursion stopper, +m, postponement at an unresolved reference, other separators (quick: 1/18 of the 15 000-case grid, thorough: all)",
   },
   declined="soundness/completeness of the lazy search with the visited set over all expressions x models (the bulk of C11)",
   technique="decision-table extraction + interface-completeness check over the RREL node classes"),
@@ -360,6 +360,7 @@ P = {
     "C28.f": "an error's location fields are assigned only by the exception constructors, TextXMetaModel.process and the resolver's handler (the sites that fill a location-less error completely)",
     "C28.a": "at every pos_to_linecol site the parser and the offset belong to the same model (ownership pairing); provider call sites hand over the owner of the reference",
     "C28.b": "each raise site passes line, col and filename of the owner",
+    "C28.g": "by evaluation of TextXModelParser._parse with the exception classes of textx/exceptions.py interpreted: a NoMatch becomes a TextXSyntaxError carrying the NoMatch's message, line, col, context, expected rules and the file name of the parser that reported it (the attributes are read after eval_attrs()); a successful parse returns the tree",
     "C28.c": "the location fields of one raise are assigned in the same loop iteration; by evaluation of the unresolved-reference branch: line, col and filename of the error belong to one and the same reference",
     "C28.d": "the resolver fills a provider error's location only where it has none",
     "C28.e": "every scope-provider call of the resolver (attached, registered or default provider) lies inside the try whose TextXError handler fills line, col and filename from the reference and re-raises",
@@ -381,11 +382,8 @@ P = {
 "C30": dict(
   decided={
     "C26.g": "registry functions evaluated on a sample registry: languages_for_file (name equals or matches the pattern), generator_description (own generator, else 'any' with any_permitted, else TextXRegistrationError; names lower-cased), clear_generator_registrations (registry unset)",
-    "C30.a": "custom argument keys are '-'->'_' normalised at every store (sibling branches)",
-    "C30.b": "validation table: missing mandatory / undeclared given -> TextXError before the generator call",
-    "C30.c": "every handler of TextXError in check/generate logs and exits 1",
-    "C30.d": "textx check looks the metamodel up for every file (not conditional on a variable the loop assigns)",
-    "C30.e": "the missing-mandatory-parameter error does not depend on whether any custom argument was given",
+    "C30.d": "by evaluation of the check command body on 9 command lines: every file is checked with the meta-model of its own language (or the given grammar / language) and the command's debug flag; an invalid file or an unknown language exits 1, otherwise 0",
+    "C30.g": "by evaluation of the generate command body on 15 command lines (recording stand-ins for the registry, the meta-models and the generators): custom arguments are parsed (--a-b v -> a_b='v', --flag -> True, quotes stripped), every file is loaded with the meta-model of its own language and only the declared model parameters, every generator call is validated against that generator's own declaration (missing mandatory / undeclared -> exit 1 before the call, for every file), generator errors and unknown languages exit 1, otherwise exit 0",
   },
   declined="end-to-end CLI behaviour (click parsing)",
   technique="key-normalisation dataflow + decision table + handler discipline"),
